@@ -1,4 +1,5 @@
 import ModbusModel.Lemmas.Client
+import ModbusModel.Lemmas.Call
 /-
   C06 – A client call succeeds only for the response that answers its request.
 -/
@@ -77,6 +78,28 @@ theorem call_result_classified (c : Client) (req : Request) (t : Transport) (b :
       first
         | (subst h; simp)
         | (subst h; exact Or.inr (Or.inr ⟨_, _, rfl⟩))
+
+/-- … and that reply was decoded from bytes the response decoder accepted: the verdict is never
+    about anything but a decoded reply PDU -/
+theorem call_result_decoded (c : Client) (req : Request) (t : Transport) (b : Budget) (x : CallResult)
+    (h : (c.call req t b).1 = .done x) :
+    (∃ k, x = .transport k) ∨ x = .panic
+    ∨ ∃ rspHdr res, x = classify (stampedHdr c) req.functionCode rspHdr res
+        ∧ ∃ pdu, decodeResponsePdu pdu = .ok res := by
+  unfold Client.call at h
+  unfold stampedHdr
+  by_cases hb : b = some 0
+  · simp [hb] at h
+  · simp only [hb, if_false] at h
+    cases hk : c.kind <;> simp only [hk] at h ⊢ <;>
+    · revert h
+      (repeat' split) <;> intro h <;> simp_all <;>
+      first
+        | (subst h; simp; done)
+        | (subst h
+           refine Or.inr (Or.inr ⟨_, _, rfl, ?_⟩)
+           rename_i heq
+           exact clientDecoder_yields _ _ _ (awaitNextB_yields _ _ _ _ _ _ _ (congrArg Prod.fst heq)))
 
 -- non-vacuity
 example : classify ⟨3, 7⟩ (.custom 8) ⟨3, 7⟩ (.error ⟨.diagnostics, .illegalFunction⟩) = .exception .illegalFunction := by decide
